@@ -970,7 +970,29 @@ pub fn responder_case(w: ReqWeights, seteid_noise: u32, uuid_updates: u32, max_o
         .prop_flat_map(move |(cfg, s1, i1, s2, i2)| {
             let a = cfg.addr;
             let n = cfg.vendors.len();
-            (Just(cfg), vec(responder_op(a, n, w, seteid_noise, uuid_updates, [(s1, i1), (s2, i2)]), 1..=max_ops))
+            (Just(cfg), vec(responder_op(a, n, w, seteid_noise, uuid_updates, [(s1, i1), (s2, i2)]), 1..=max_ops), any::<u16>())
+        })
+        .prop_map(|(cfg, mut ops, k)| {
+            // one history in 64 is its operation list applied several times over, long
+            // enough (260-300 operations) for 8-bit counters of requests to wrap; one in
+            // 64 consists of one operation 3-9 times in a row
+            match k & 63 {
+                1 => {
+                    ops.truncate(12);
+                    let times = 260 / ops.len() + 1 + (k >> 6) as usize % 3;
+                    ops = ops.iter().cloned().cycle().take(ops.len() * times).collect();
+                }
+                2 => {
+                    let i = ((k >> 6) as usize * ops.len()) >> 10;
+                    let op = ops[i.min(ops.len() - 1)].clone();
+                    let times = 3 + (k >> 6) as usize % 7;
+                    for _ in 0..times {
+                        ops.push(op.clone());
+                    }
+                }
+                _ => {}
+            }
+            (cfg, ops)
         })
         .boxed()
 }
